@@ -6,9 +6,39 @@ mod native {
     use crate::verif_hook::runner::*;
     use serde_json::{json, Value};
 
+    /// `Network::from_file` on a real temporary file holding the given links in the legacy layout
+    pub fn from_file_legacy(links_old: &Value) -> Value {
+        let links: Vec<LinkOld> = match serde_json::from_value(links_old.clone()) {
+            Ok(l) => l,
+            Err(e) => return json!({"kind": "unsupported", "msg": format!("legacy links do not deserialize: {e}")}),
+        };
+        let dir = std::env::temp_dir().join(format!("verif_runner_{}", std::process::id()));
+        let _ = std::fs::create_dir_all(&dir);
+        let path = dir.join("legacy_network.yaml");
+        let txt = match serde_yaml::to_string(&NetworkOld(links)) {
+            Ok(t) => t,
+            Err(e) => return json!({"kind": "unsupported", "msg": format!("cannot write the legacy file: {e}")}),
+        };
+        if let Err(e) = std::fs::write(&path, txt) {
+            return json!({"kind": "unsupported", "msg": format!("cannot write the legacy file: {e}")});
+        }
+        let r = std::panic::catch_unwind(|| Network::from_file(&path));
+        let _ = std::fs::remove_file(&path);
+        let _ = std::fs::remove_dir(&dir);
+        match r {
+            Err(p) => json!({"kind": "panic", "step": 0, "msg": p.downcast_ref::<String>().cloned().or_else(|| p.downcast_ref::<&str>().map(|s| s.to_string())).unwrap_or_default()}),
+            Ok(Err(e)) => json!({"kind": "err", "step": 0, "msg": format!("{e:#}").chars().take(600).collect::<String>()}),
+            Ok(Ok(n)) => json!({"kind": "ok", "step": 0, "recv": Value::Null, "ret": serde_json::to_value(&n.0).unwrap_or(Value::Null)}),
+        }
+    }
+
     impl FileEntry for LinkImplTag {
-        fn call(_req: &Value) -> Value {
-            json!({"kind": "unsupported", "msg": "no entries yet"})
+        fn call(req: &Value) -> Value {
+            let fname = req["calls"][0]["fn"].as_str().unwrap_or("");
+            if fname.ends_with("::from_file") {
+                return from_file_legacy(&req["calls"][0]["args"][0]);
+            }
+            json!({"kind": "unsupported", "msg": format!("no runner entry for {fname}")})
         }
     }
 }
